@@ -362,10 +362,23 @@ func c20SubscriberStack(r *Run) {
 	r.Describe("subscriber stack (innermost first) %v around a scripted subscriber with %d messages, nack plan %v", names, n, nackPlan)
 	ctx, cancel := context.WithCancel(context.Background())
 	defer cancel()
+	// a quarter of the runs: the inner Subscribe fails once; the error has to pass through and a retry must work
+	if t.Chance(1, 4) {
+		inner.SubscribeErrAt = 1
+		r.Fault("subscribe-error")
+		if _, serr := sub.Subscribe(ctx, "topic"); serr == nil || !strings.Contains(serr.Error(), "scripted subscribe error") {
+			r.Fail("C20.R1", "the inner subscriber's Subscribe error did not pass through the decorators", "%v", serr)
+		}
+	}
 	ch, err := sub.Subscribe(ctx, "topic")
 	if err != nil {
 		r.Fail("C20.R1", "Subscribe through the decorators failed", "%v", err)
 		return
+	}
+	// a sixth of the runs: the consumer keeps one message unsettled and stops reading; Close must still return
+	holdAt := -1
+	if t.Chance(1, 6) {
+		holdAt = t.Int(n)
 	}
 	var got []*message.Message
 	acks, nacks := uint64(0), uint64(0)
@@ -383,6 +396,10 @@ func c20SubscriberStack(r *Run) {
 				r.Fault("subscription-cancel-before-settlement")
 				cancel()
 			}
+			if len(got)-1 == holdAt {
+				r.Fault("consumer-holds-unsettled-message")
+				return
+			}
 			seen[m.UUID]++
 			if seen[m.UUID] <= nackPlan[m.UUID] {
 				nacks++
@@ -394,14 +411,22 @@ func c20SubscriberStack(r *Run) {
 		}
 	}()
 	r.Sim.Quiesce()
-	if err := sub.Close(); err != nil {
-		r.Fail("C20.R2", "Close through the subscriber decorators failed", "%v", err)
-	}
+	closeReturned := false
+	go func() {
+		if err := sub.Close(); err != nil {
+			r.Fail("C20.R2", "Close through the subscriber decorators failed", "%v", err)
+		}
+		closeReturned = true
+	}()
 	r.Sim.Quiesce()
+	if !closeReturned {
+		r.Fail("C20.R2", "Close of a decorated subscriber never returned", "stack %v, cancelled in flight=%v, consumer holds a message=%v", names, cancelAt >= 0, holdAt >= 0)
+		return
+	}
 	if inner.Closes != 1 {
 		r.Fail("C20.R2", "Close did not pass through the subscriber decorators exactly once", "inner Close calls: %d", inner.Closes)
 	}
-	if len(got) > len(inner.Deliveries) || (len(got) != len(inner.Deliveries) && cancelAt < 0) {
+	if len(got) > len(inner.Deliveries) || (len(got) != len(inner.Deliveries) && cancelAt < 0 && holdAt < 0) {
 		r.Fail("C20.R1", "the decorated subscriber did not pass every message exactly once", "received %d, inner emitted %d", len(got), len(inner.Deliveries))
 		return
 	}
@@ -416,7 +441,7 @@ func c20SubscriberStack(r *Run) {
 			r.Fail("C20.R1", "messages were reordered or replaced on their way through the subscriber decorators", "position %d: %s vs %s", i, got[i].UUID, d.Msg.UUID)
 			continue
 		}
-		if !d.Settled() {
+		if !d.Settled() && i != holdAt {
 			r.Fail("C20.R1", "settling the received message did not settle the inner subscriber's message", "%s", d.Msg.UUID)
 		}
 		if st := got[i].Metadata.Get("subtrace"); st != strings.Join(tags, ",") {
